@@ -468,7 +468,7 @@ def main():
             "kernel_reevaluated": kx_n, "kernel_agree": kx_ok,
             "rx_strings_checked": rx_cases, "rx_disagreements": rx_bad,
             "broken": [{"what": w, "detail": d[:600]} for w, d in broken],
-            "exhaustive": False,
+            "exhaustive": bool(cfg.get("exhaustive", False)),
         },
         "assumptions": cfg.get("assumptions", []),
         "wall_s": round(time.time() - t0, 2),
